@@ -68,3 +68,15 @@ def ctop(a):
 
 SIGS = {"f1": ["a"], "f2": ["a", "b"], "f2d": ["a", "b"], "f3": ["a", "b", "c"], "fk": ["a", "k"], "fkw": ["a"]}
 KWONLY = {"fk": {"k"}, "fkw": {"extra", "zeta"}}
+
+
+class Outer:
+    """A memento function living in a class nested in another class (qualified name with two dots)."""
+
+    class Inner:
+        @staticmethod
+        @m.memento_function(cluster="vfc", version="1")
+        def sfn(a, b=2):
+            sys.audit("vf.body", "sfn", (a, b))
+            return ["sfn", a, b]
+
